@@ -141,6 +141,10 @@ static void check_input(Reporter& rep, const Paths& S, const Paths& C, const Pat
       t.open = vfc::from64(to); t.flat = vfc::from64(CL::PolyTreeToPaths64(tr));
     }
     cur_api = "closed_only"; BoolOut q = vfc::boolop(ct, fr, S, C, Paths(), true, false);
+    // the overload that takes no container for open paths, on an object that does hold open subjects
+    BoolOut r3;
+    { namespace CL = Clipper2Lib; CL::Clipper64 c; c.AddSubject(vfc::to64(S)); c.AddOpenSubject(vfc::to64(O)); c.AddClip(vfc::to64(C));
+      CL::Paths64 sc; cur_api = "closed_overload"; r3.ok = c.Execute((CL::ClipType)ct, (CL::FillRule)fr, sc); r3.closed = vfc::from64(sc); rep.add("lib_calls"); }
     rep.add("lib_calls", 3); rep.add("cases", 2); rep.add("compared", 2);
     bool any_exp = false, any_unexp = false; for (auto& x : pieces) (x.expected ? any_exp : any_unexp) = true;
     if (any_exp && any_unexp) rep.add("nontrivial", 2);   // the open subject is genuinely cut
@@ -151,15 +155,19 @@ static void check_input(Reporter& rep, const Paths& S, const Paths& C, const Pat
     if (why.empty()) { why = judge_open(O, p.open, pieces, ncuts); if (!why.empty()) why = "paths/" + why; }
     if (why.empty() && canon_open(t.open, false) != canon_open(p.open, false)) { why = judge_open(O, t.open, pieces, ncuts); if (!why.empty()) why = "tree/" + why; rep.add("tree_open_differs_from_paths_open"); }
     // adding open subjects does not change the region of the closed solution
-    if (why.empty() && canon_closed(p.closed) != canon_closed(q.closed)) {
+    if (why.empty() && !r3.ok) why = "execute_false: Execute(ct, fr, closed) on an object with open subjects";
+    for (int which = 0; which < 2 && why.empty(); ++which) {
+      const Paths& with_open = which ? r3.closed : p.closed;
+      if (canon_closed(with_open) == canon_closed(q.closed)) continue;
       rep.add("closed_solution_paths_differ_with_open");
       // region comparison at all half-integer lattice points farther than 2 units from the closed input edges
-      Box bb = bbox(all); Paths a2 = scaled(p.closed, 2), b2 = scaled(q.closed, 2), in2 = scaled(all, 2);
+      Box bb = bbox(all); Paths a2 = scaled(with_open, 2), b2 = scaled(q.closed, 2), in2 = scaled(all, 2);
+      if (which) { Box bo = bbox(O); bb.x0 = std::min(bb.x0, bo.x0); bb.y0 = std::min(bb.y0, bo.y0); bb.x1 = std::max(bb.x1, bo.x1); bb.y1 = std::max(bb.y1, bo.y1); }
       for (i64 y = 2 * bb.y0 - 1; y <= 2 * bb.y1 + 1 && why.empty(); y += 2)
         for (i64 x = 2 * bb.x0 - 1; x <= 2 * bb.x1 + 1; x += 2) {
           P c{x, y}; if (dist_to_edges(c, in2) / 2 <= 2.0L) continue;
           bool on = false; int wa = winding(a2, c, on), wb = winding(b2, c, on);
-          if (!on && wa != wb) { why = "closed_region_changed_by_open_subjects: at (" + std::to_string(x / 2.0) + "," + std::to_string(y / 2.0) + ")"; break; }
+          if (!on && wa != wb) { why = std::string(which ? "closed_overload_region_changed_by_open_subjects" : "closed_region_changed_by_open_subjects") + ": at (" + std::to_string(x / 2.0) + "," + std::to_string(y / 2.0) + ")"; break; }
         }
     }
     if (why.empty() && canon_closed(t.flat) != canon_closed(p.closed)) why = "tree_closed_differs: ";
